@@ -87,6 +87,7 @@ func (p *Program) verifyFuncWith(key string, forceSafety bool, extraTags []strin
 		vc.assume(fmt.Sprintf("(> %s 0)", n))
 		vc.assume(vc.allocatedFact(st, fv.Type(), n))
 		f.freeVars[fv] = Val{n, "Int"}
+		f.noteFrozen(fv, n)
 	}
 	vc.assume(fmt.Sprintf("(> %s 0)", vc.get(st, "next")))
 	vc.regComp("Own_SendCnt", "Int")
@@ -119,6 +120,15 @@ func (p *Program) verifyFuncWith(key string, forceSafety bool, extraTags []strin
 				continue
 			}
 			vc.assume(t)
+		}
+		for _, r := range ct.Extra["rely"] {
+			t, err := env.evalBool(r.Expr)
+			if err != nil {
+				vc.unbound = append(vc.unbound, fmt.Sprintf("%s: rely %s: %v", key, r.Label, err))
+				continue
+			}
+			vc.assume(t)
+			vc.trust(fmt.Sprintf("rely in %s: %s", key, r.Text))
 		}
 		for _, r := range ct.Extra["assume"] {
 			t, err := env.evalBool(r.Expr)
